@@ -135,6 +135,14 @@ class OpTypestate:
             and isinstance(c.func.value, ast.Name):
           if not self._pop_guarded(n, c.func.value.id):
             evs.append(('IndexError', f'{c.func.value.id}.pop() without an emptiness test'))
+        elif isinstance(c.func, ast.Attribute) and c.func.attr == 'format' and not _constant_template(
+            flow.resolve_local(self.fi.node, c.func.value)):
+          evs.append(('ValueError', f'`{unparse(c.func.value, 40)}.format(..)`: the template contains run-time text, whose braces are parsed '
+                      'as replacement fields (KeyError / IndexError / ValueError)'))
+      for b in (x for e_ in flow.node_exprs(n) for x in ast.walk(e_)):
+        if isinstance(b, ast.BinOp) and isinstance(b.op, ast.Mod) and not _constant_template(flow.resolve_local(self.fi.node, b.left)) \
+            and any(isinstance(x, (ast.Constant, ast.JoinedStr)) and isinstance(getattr(x, 'value', ''), str) for x in ast.walk(b.left)):
+          evs.append(('ValueError', f'`{unparse(b.left, 40)} % ..`: the template contains run-time text'))
     self.events[n.id] = evs
     return [e for e, _ in evs]
 
@@ -432,6 +440,15 @@ def r9_r10_algorithm_calls(ctx, svc: Svc) -> None:
     raise AnalysisError(f'only {n_calls} algorithm call sites found in the pythia/policy/service modules')
   if n_loops == 0:
     ctx.ok('R9', 'no retry loop around any algorithm call', 'vizier/_src/service/pythia_service.py', 'algorithm calls are made once')
+
+
+def _constant_template(e: ast.AST) -> bool:
+  """A format template made of string literals only (concatenated or implicitly joined)."""
+  if isinstance(e, ast.Constant) and isinstance(e.value, str):
+    return True
+  if isinstance(e, ast.BinOp) and isinstance(e.op, ast.Add):
+    return _constant_template(e.left) and _constant_template(e.right)
+  return False
 
 
 def _short(n: cfgmod.Node) -> str:
